@@ -71,8 +71,13 @@ class ClassInfo:
         self.idx = idx
         self.cls = cls
         self.key = "%03d:%s" % (idx, cls.__name__)
-        stx = [e for e in cls.syntax.syntax if isinstance(e, str) and not e.isspace()]
-        self.mnemonic = "".join(stx[:2]) if stx[:1] == ["."] else (stx[0] if stx else "")
+        # mnemonic: the literal elements up to the first blank or operand ("c.sub", "mov.w", ".align")
+        parts = []
+        for e in cls.syntax.syntax:
+            if not isinstance(e, str) or e.isspace():
+                break
+            parts.append(e)
+        self.mnemonic = "".join(parts)
 
     def __repr__(self):
         return "<%s %s>" % (self.archname, self.key)
